@@ -50,7 +50,9 @@ def run(ctx, rep):
     sep = "\n" if rl else None
     rep.ob("C18.framing", "the transpiler reads the text form line by line (read_line)", "ok" if rl else "undecided", "", tf.span, fn=tf.path)
     _codecs.report_roundtrip(rep, "C18.roundtrip", "text(W1,R1)", tab, n1, w1f.span, w1f.path, record_sep=sep)
-    _codecs.report_roundtrip(rep, "C18.roundtrip", "transpiled(W2,R2)", tab, n2, w2f.span, w2f.path)
+    # W2 writes the binary form: records end with NUL (the template of Instruction::repr ends in "\0")
+    sep2 = "\x00" if [t for t in _codecs.final_template(w2f) if t and t[-1] == "\x00"] else None
+    _codecs.report_roundtrip(rep, "C18.roundtrip", "transpiled(W2,R2)", tab, n2, w2f.span, w2f.path, record_sep=sep2)
     # R1 tokenises with split_string
     ss = tf.calls_to("bytecode::instruction::split_string")
     rep.ob("C18.framing", "the transpiler tokenises arguments with split_string", "ok" if ss else "violated", "", tf.span, fn=tf.path)
